@@ -717,3 +717,148 @@ def bbox_longitude_buffer(P, rep, rule="DEP.bbox-lon"):
         else:
             rep.ok(rule, "%s: both longitude buffers are b*max(1/cos(min_lat), 1/cos(max_lat))" % name, F.nloc(corners["first"][0]), F.qn)
     rep.floor(rule, n, 2, "spherical bounding boxes")
+
+
+# ------------------------------------------------------------------------------------------------
+def depth_defaults(P, rep, rule="SCHEMA.depth-defaults"):
+    """the default of a depth given as values at points is the default of the same depth given as a number"""
+    rep.rule(rule, "every declare_entry(\"min depth\" / \"max depth\", OneOf(Double(d), Array(ValueAtPoints(d', ...)))) has d' = d: a polygon "
+                   "corner that the list does not mention gets the documented default of the scalar form (0 / the largest double)")
+    n = 0
+    for F in P.funcs.values():
+        if F.body is None or not F.name.startswith("declare_entries"):
+            continue
+        for x in F.walk():
+            if x.get("k") != "CXXMemberCallExpr" or P.d(x.get("callee")).get("n") != "declare_entry":
+                continue
+            args = [a for a in x["c"][1:] if a is not None]
+            if len(args) < 2:
+                continue
+            lits = [y.get("v") for y in F.walk(args[0]) if y.get("k") == "StringLiteral"]
+            if not lits or lits[0] not in ("min depth", "max depth"):
+                continue
+
+            def default_of(tname):
+                out = []
+                for y in F.walk(args[1]):
+                    if y.get("k") in ("CXXConstructExpr", "CXXTemporaryObjectExpr", "CXXFunctionalCastExpr") and (y.get("t") or "").replace("const ", "").endswith(tname):
+                        a_ = [z for z in (y.get("c") or []) if z is not None and z.get("k") != "CXXDefaultArgExpr"]
+                        if a_ and not ((sc(a_[0]).get("t") or "").replace("const ", "").endswith(tname)):
+                            out.append(a_[0])
+                return out
+            ds, vs = default_of("Types::Double"), default_of("Types::ValueAtPoints")
+            if not vs:
+                continue
+            n += 1
+            if len(ds) != 1 or len(vs) != 1:
+                rep.unknown(rule, "%s \"%s\": %d scalar / %d point-list alternatives" % (F.qn, lits[0], len(ds), len(vs)))
+                continue
+
+            def val(e):
+                e0 = sc(e)
+                if e0.get("k") in ("IntegerLiteral", "FloatingLiteral"):
+                    return float(e0["v"])
+                return norm.render(P, e, nocast=True).replace(" ", "")
+            a, b = val(ds[0]), val(vs[0])
+            cls = F.qn.rsplit("::", 1)[0].replace("WorldBuilder::Features::", "")
+            if a == b:
+                rep.ok(rule, "%s \"%s\": both forms default to %s" % (cls, lits[0], a), F.nloc(x), F.qn)
+            else:
+                rep.violation(rule, "%s \"%s\": the scalar form defaults to %s, unlisted corners of the point list to %s" % (cls, lits[0], a, b), F.nloc(x), F.qn,
+                              norm.render(P, args[1])[:160], "a polygon corner that is not listed does not get the documented default",
+                              key="%s|%s|%s" % (rule, cls, lits[0]), witness="a %s given as one listed point inside the polygon: the feature %s towards the unlisted corners" % (
+                                  lits[0], "thins to nothing" if lits[0] == "max depth" else "starts deeper"))
+    rep.floor(rule, n, 40, "depth entries with a values-at-points alternative")
+
+
+# ------------------------------------------------------------------------------------------------
+def bbox_extremes(P, rep, rule="DEP.bbox-extremes"):
+    """the four extreme coordinates the surface bounding box of a slab / fault is built from"""
+    rep.rule(rule, "SubductingPlate / Fault::parse_entries: min_along_x / max_along_x / min_along_y / max_along_y are component 0 / 0 / 1 / 1 of the "
+                   "minimum / maximum / minimum / maximum element of all trench coordinates under a comparison of that same component")
+    n = 0
+    want = {"min_along_x": ("min", 0), "max_along_x": ("max", 0), "min_along_y": ("min", 1), "max_along_y": ("max", 1)}
+    for cls in ("WorldBuilder::Features::SubductingPlate", "WorldBuilder::Features::Fault"):
+        F = P.func(cls + "::parse_entries")
+        inits = {x["r"]: x["c"][0] for x in F.walk() if x.get("k") == "VarDecl" and x.get("c")}
+
+        def comparator_component(e):
+            """the component compared by the lambda passed as comparator: p1[j] < p2[j]"""
+            for y in F.walk(e):
+                lam = None
+                if y.get("k") == "LambdaExpr":
+                    lam = y
+                elif y.get("k") == "DeclRefExpr" and y.get("r") in inits:
+                    lam = next((z for z in F.walk(inits[y["r"]]) if z.get("k") == "LambdaExpr"), None)
+                if lam is None:
+                    continue
+                for key in lam.get("lams") or []:
+                    G = P.funcs.get(key)
+                    if G is None or G.body is None:
+                        continue
+                    rets = [r for r in G.walk() if r.get("k") == "ReturnStmt" and r.get("c")]
+                    if len(rets) != 1:
+                        return None
+                    c = sc(rets[0]["c"][0])
+                    if c.get("k") != "BinaryOperator" or c.get("op") != "<":
+                        return None
+                    sl, sr = astq.subscript(sc(c["c"][0])), astq.subscript(sc(c["c"][1]))
+                    if not sl or not sr:
+                        return None
+                    il, ir = sc(sl[1]), sc(sr[1])
+                    if il.get("k") != "IntegerLiteral" or ir.get("k") != "IntegerLiteral" or il["v"] != ir["v"]:
+                        return None
+                    if not (astq.is_ref_to(sc(sl[0]), G.params[0]) and astq.is_ref_to(sc(sr[0]), G.params[1])):
+                        return None
+                    return int(il["v"])
+            return None
+
+        def resolve(e):
+            """(kind, comparator component, range text) of an iterator-valued expression"""
+            e = sc(e)
+            if e.get("k") == "CallExpr":
+                qn = P.d(e.get("callee")).get("qn")
+                if qn in ("std::min_element", "std::max_element", "std::minmax_element"):
+                    a = e["c"][1:]
+                    if len(a) != 3:
+                        return None
+                    b, en = norm.render(P, a[0], nocast=True).replace(" ", ""), norm.render(P, a[1], nocast=True).replace(" ", "")
+                    if not (b.endswith(".begin()") and en.endswith(".end()") and b[:-8] == en[:-6]):
+                        return None
+                    return ({"std::min_element": "min", "std::max_element": "max", "std::minmax_element": "minmax"}[qn], comparator_component(a[2]), b[:-8])
+            if e.get("k") == "MemberExpr" and e.get("n") in ("first", "second") and e.get("c"):
+                base = resolve(e["c"][0])
+                if base and base[0] == "minmax":
+                    return ("min" if e["n"] == "first" else "max", base[1], base[2])
+            if e.get("k") == "DeclRefExpr" and e.get("r") in inits:
+                return resolve(inits[e["r"]])
+            if e.get("k") in ("CXXConstructExpr", "MaterializeTemporaryExpr", "CXXBindTemporaryExpr", "ExprWithCleanups") and e.get("c"):
+                kids = [z for z in e["c"] if z is not None]
+                if len(kids) == 1:
+                    return resolve(kids[0])
+            return None
+        for x in F.walk():
+            if not (x.get("k") == "BinaryOperator" and x.get("op") == "=" and sc(x["c"][0]).get("k") == "MemberExpr" and astq.is_this_field(P, sc(x["c"][0]))
+                    and sc(x["c"][0]).get("n") in want):
+                continue
+            fld = sc(x["c"][0])["n"]
+            n += 1
+            kind_w, comp_w = want[fld]
+            s = astq.subscript(sc(x["c"][1]))
+            got = None
+            if s and sc(s[1]).get("k") == "IntegerLiteral":
+                it = sc(s[0])
+                if it.get("k") in ("CXXOperatorCallExpr", "UnaryOperator") and it.get("op") == "*":
+                    r0 = resolve(it["c"][-1])
+                    if r0:
+                        got = (r0[0], r0[1], int(sc(s[1])["v"]), r0[2])
+            inst = "%s: %s" % (cls.split("::")[-1], fld)
+            if got is None:
+                rep.unknown(rule, "%s is not component k of an extreme element (%s)" % (inst, norm.render(P, x["c"][1])[:80]))
+            elif got[0] == kind_w and got[1] == comp_w and got[2] == comp_w and got[3] in ("coordinates", "this.coordinates", "this->coordinates"):
+                rep.ok(rule, "%s = component %d of the %s element of the coordinates by component %d" % (inst, got[2], got[0], got[1]), F.nloc(x), F.qn)
+            else:
+                rep.violation(rule, "%s is component %s of the %s element of %s under a comparison of component %s" % (inst, got[2], got[0], got[3], got[1]),
+                              F.nloc(x), F.qn, norm.render(P, x)[:160], "the surface bounding box does not span the trench: points of the feature are culled",
+                              key="%s|%s|%s" % (rule, cls, fld), witness="a trench running north-west to south-east that is longer than the buffer")
+    rep.floor(rule, n, 8, "extreme coordinates in slab and fault")
